@@ -451,12 +451,24 @@ static bool exact_instance(vh::Trace& tr, const Sys& s, vh::Rng& rng, long i, co
   // without additive term the mean of a bin is (P lambda)_b itself: every bin then sees voxels of ONE class only, all
   // voxels of a class have the same value 2^class, so that (P lambda)_b = 2^class (P 1)_b
   c.additive = rng.range(0, 3) != 0;
-  const bool emptyColumn = !c.prior && rng.range(0, 5) == 0;   // a voxel no bin sees (denominator 0 -> thresholded, gradient 0)
+  // a voxel no bin sees: without prior the denominator is 0 there (thresholded; gradient 0); with a prior the denominator is
+  // the penalty part alone, which must then be a power of two itself (decided below)
+  const bool emptyColumn = rng.range(0, 4) == 0;
 
   // ---- denominator targets: D_v = 2^kv = dData_v + 2 beta s_v with dData_v > 0
   std::vector<int> dData(nv);
+  int skip = -1;
+  if (emptyColumn) {
+    std::vector<int> cand;
+    for (int v = 0; v < nv; ++v) {
+      const int pc = c.prior ? 2 * c.beta * weight_sum(s, c, s.vox[v][0], s.vox[v][1] + s.ny / 2, s.vox[v][2] + s.nx / 2) : 0;
+      if (!c.prior || (pc >= 2 && (pc & (pc - 1)) == 0)) cand.push_back(v);
+    }
+    if (!cand.empty()) skip = cand[rng.next() % cand.size()];
+  }
   for (int v = 0; v < nv; ++v) {
     const int pc = c.prior ? 2 * c.beta * weight_sum(s, c, s.vox[v][0], s.vox[v][1] + s.ny / 2, s.vox[v][2] + s.nx / 2) : 0;
+    if (v == skip) { dData[v] = 0; continue; }
     int p2 = 4;
     while (p2 < pc + 2) p2 *= 2;
     if (p2 <= 64 && rng.range(0, 2) == 0) p2 *= 2;
@@ -480,7 +492,6 @@ static bool exact_instance(vh::Trace& tr, const Sys& s, vh::Rng& rng, long i, co
   }
   // ---- columns of P: sum_b P_bv 2^(3 - ce_b) = 8 dData_v
   std::vector<std::vector<std::pair<int, int>>> rows(nb);
-  const int skip = emptyColumn ? rng.range(0, nv - 1) : -1;
   for (int v = 0; v < nv; ++v) {
     if (v == skip) continue;
     long remaining = 8L * dData[v];
@@ -524,6 +535,9 @@ static bool exact_instance(vh::Trace& tr, const Sys& s, vh::Rng& rng, long i, co
   // ---- image and data
   ExactData d;
   for (int v = 0; v < nv; ++v) d.lam.push_back(c.additive ? rng.range(0, lmax) : (1 << cls_v[v]));
+  // without a prior a voxel no bin sees is 0 in every iterate after the first update: the only value a run that starts at a
+  // later sub-iteration can meet there (with a prior the penalty moves it: any value)
+  if (skip >= 0 && !c.prior && k > 1) d.lam[skip] = 0;
   std::vector<float> yf(nb), af(nb);
   for (int b = 0; b < nb; ++b) {
     int p1 = 0, pl = 0;
@@ -616,7 +630,9 @@ static float rnd(vh::Rng& rng, int lo64, int hi64) { return rng.range(lo64, hi64
 
 static void runs_group(vh::Trace& tr, const Sys& s, vh::Rng& rng, long& cfgid, int N, int priorKind, int stage, const std::string& scratch) {
   const int nv = (int)s.vox.size(), nb = (int)s.bins.size();
-  const bool emptyColumn = priorKind == 0 && rng.range(0, 3) == 0;
+  // a voxel no bin sees (zero sensitivity): without a prior it just stays 0; WITH a prior the penalty moves it, which is
+  // what makes "set voxels that cannot be estimated to 0" visible when a run is resumed
+  const bool emptyColumn = priorKind == 0 ? rng.range(0, 3) == 0 : rng.range(0, 2) != 0;
   Matrix m = random_matrix(s, rng, emptyColumn);
   tr.emit(vh::xm_system_json(m.id, s.t, *m.data));
   // data: a noisy version of the projection of a random image (no structure needed: nothing here is compared by the driver)
